@@ -16,7 +16,7 @@ from sa import query as Q
 from sa.cfg import ExcOracle, handler_names
 from sa.model import call_name, calls_in, src, walk_no_defs
 
-from .common import WEB_STATIC, WEB_TOOLS, WEB_UTILS, loc, need
+from .common import http_func, WEB_STATIC, WEB_TOOLS, WEB_UTILS, loc, need
 
 MIN_OBLIGATIONS = 16
 FS_SINKS = {'os.path.exists', 'os.path.isfile', 'os.path.isdir', 'os.listdir', 'open', 'serve_file', 'os.stat', 'os.path.getsize', 'os.scandir'}
@@ -397,7 +397,7 @@ def rule_d(repo, chk):
 
 def rule_e(repo, chk):
     from .common import WEB_HTTP, WEB_WRAPPERS
-    h = repo.func(WEB_HTTP, 'HTTP._on_read')
+    h = http_func(repo, 'HTTP._on_read')
     chk.touch(h)
     g = h.cfg()
     reqv = None
